@@ -245,6 +245,7 @@ def shard(ctx, acc):
     rd = [n for n, r in rl.items() if 'read' in r]
     nt = bool(wo) and bool(rd) and info['generated'] >= 3
     cls = ['vocab_names_used=%d' % min(len(used), 8)]
+    cls += [k for k in prog['meta'] if k.startswith('excluded:')]
     if wo:
       cls.append('has_write_only_vocab_name')
     if any(prog['mapping'].get(k) for k in ('a', 'b', 'q', 'r')):
